@@ -53,8 +53,8 @@ theorem setIdxE_of_lt {α} {xs : List α} {i : Nat} (v : α) (site : String) (h 
   simp [setIdxE, setE, h]
 
 /-- read of a local that Python may not have bound yet (`UnboundLocalError`); `d` is the definedness flag -/
-def readDefE {α} (d : Bool) (v : α) (name : String) : Except Err α :=
-  if d then .ok v else .error (.other ("UnboundLocalError:" ++ name))
+def readDefE {α} (d : Bool) (v : α) (_name : String) : Except Err α :=
+  if d then .ok v else .error (.other "UnboundLocalError")
 
 /-- `np.zeros(n, dtype)` (dtype is not modelled) -/
 def npZeros (n : Int) : Except Err (List Int) :=
